@@ -169,7 +169,7 @@ def rule_upward(chk):
     root_tests = []
     for t in ecfg.live:
         if t.kind == "test":
-            e = t.exprs[0]
+            e = X.inline(enp, t.exprs[0])
             txt = unparse(e)
             if "parent()" in txt and "None" in txt and isinstance(e, ast.Compare) and isinstance(e.ops[0], (ast.Is, ast.Eq)):
                 root_tests.append((t, "true"))
